@@ -33,6 +33,12 @@
                             by `basename(code_file)`. The insertion order is the completion order of
                             the supplier calls (one per distinct module key — C12 `at_most_once`).
 
+    * `certMap`/`certReport`  `handle_evil` (minidump-processor/src/evil.rs:57-67): the evil JSON's
+                            `ModuleSignatureInfo` (`HashMap<cert, Vec<module>>`) is inverted by
+                            `for (cert, modules) in certs { for m in modules { map.insert(m, cert) } }`
+                            — iteration order of the OUTER map — and `cert_subject` / the text module
+                            list look every module up by file name.
+
   Names are byte strings (`List Nat`), compared like Rust's `str::cmp` (`lexLe`).
   `slice::sort_by` is modelled by insertion sort (`isort`): for pairwise distinct keys under a total
   order every correct sort returns the same list (`MdProofs.C13.sort_unique`).
@@ -214,12 +220,32 @@ def flags : Option Res → Bool × Bool × Bool
 def statsReport (mods : Nat → Mod) (done : List Nat) (shown : List Nat) : List (Bool × Bool × Bool) :=
   shown.map fun i => flags (lookup (statsAfter mods done) (mods i).leaf)
 
+/-! ### 6. module certificates from the evil JSON -/
+
+/-- `ModuleSignatureInfo` in ITERATION order: certificate name, modules signed with it -/
+abbrev CertInfo := List (List Nat × List (List Nat))
+
+/-- the `(module, cert)` insertions in the order the two nested loops perform them -/
+def certPairs (iter : CertInfo) : List (List Nat × List Nat) :=
+  iter.flatMap fun e => e.2.map fun m => (m, e.1)
+
+/-- `cert_map` as an association list, newest insertion first -/
+def certMap (iter : CertInfo) : List (List Nat × List Nat) :=
+  (certPairs iter).foldl (fun m kv => kv :: m) []
+
+def certLookup (m : List (List Nat × List Nat)) (name : List Nat) : Option (List Nat) :=
+  (m.find? (·.1 == name)).map (·.2)
+
+/-- `cert_subject` of the modules `shown` (by file name) -/
+def certReport (iter : CertInfo) (shown : List (List Nat)) : List (Option (List Nat)) :=
+  shown.map (certLookup (certMap iter))
+
 /-! ### line protocol
-  `det model lim:<E,..|-> mods:<hexleaf=res,..|-> done:<i,i,..|-> thr:<i.i.i|->/<tid,tid,..|-> fixed:<hex,..|-> valid:<hex,..|-> jvalid:<hex,..|->`
+  `det model lim:<E,..|-> mods:<hexleaf=res,..|-> done:<i,i,..|-> thr:<i.i.i|->/<tid,tid,..|-> fixed:<hex,..|-> valid:<hex,..|-> jvalid:<hex,..|-> certs:<hexcert=hexmod+hexmod..,..|-> cshown:<hexname,..|->`
       E = `<hexname>/<rest>`; lists in the order the real containers were iterated / the real
       supplier calls completed; `valid` = validity set of a recovered frame (text report),
       `jvalid` = the set `json_registers` tests for the crashing thread's context frame.
-      -> `lim:<E,..> stats:<mlc,..> thr:<tid,..> text:<hex,..> json:<hex,..>`
+      -> `lim:<E,..> stats:<mlc,..> thr:<tid,..> text:<hex,..> json:<hex,..> cert:<hexcert|0,..>`
   `det cfi init:<r=v+|r=v-,..|-> rules:<hexlabel=v|hexlabel=-,..|->`   (rules in any order)
       -> `regs:<r=v+|r=v-,..>` for the registers 0…32 that are valid or were touched
 -/
@@ -254,15 +280,24 @@ def parseMod (s : String) : Option Mod :=
 
 def bit (b : Bool) : String := if b then "1" else "0"
 
-def handleModel (lim mods done thr fixed valid jvalid : String) : String :=
+def parseCert (s : String) : Option (List Nat × List (List Nat)) :=
+  match s.splitOn "=" with
+  | [c, ms] => match unhexName c, allSome ((listOf ms "+").map unhexName) with
+    | some c, some ms => some (c, ms)
+    | _, _ => none
+  | _ => none
+
+def handleModel (lim mods done thr fixed valid jvalid certs cshown : String) : String :=
   match allSome ((listOf lim ",").map parseEntry),
         allSome ((listOf mods ",").map parseMod),
         allSome ((listOf done ",").map optNat),
         thr.splitOn "/",
         allSome ((listOf fixed ",").map unhexName),
         allSome ((listOf valid ",").map unhexName),
-        allSome ((listOf jvalid ",").map unhexName) with
-  | some lim, some mods, some done, [order, tids], some fixed, some valid, some jvalid =>
+        allSome ((listOf jvalid ",").map unhexName),
+        allSome ((listOf certs ",").map parseCert),
+        allSome ((listOf cshown ",").map unhexName) with
+  | some lim, some mods, some done, [order, tids], some fixed, some valid, some jvalid, some certs, some cshown =>
     match allSome ((listOf order ".").map optNat), allSome ((listOf tids ",").map optNat) with
     | some order, some tids =>
       if done.any (· ≥ mods.length) || order.any (· ≥ tids.length) then "bad-op" else
@@ -271,9 +306,9 @@ def handleModel (lim mods done thr fixed valid jvalid : String) : String :=
       -- every walk starts from a placeholder (the context frame only) and writes its own slot
       let joined := joinByIndex (fun i => some (tids.getD i 0)) (tids.map fun _ => none) order
       let thrOut := joined.map fun o => match o with | some t => toString t | none => "?"
-      s!"lim:{joinWith "," (renderLimits renderEntry lim)} stats:{joinWith "," (stats.map fun (m, l, c) => bit m ++ bit l ++ bit c)} thr:{joinWith "," thrOut} text:{joinWith "," ((textRegs fixed valid).map hexName)} json:{joinWith "," ((jsonRegs fixed jvalid).map hexName)}"
+      s!"lim:{joinWith "," (renderLimits renderEntry lim)} stats:{joinWith "," (stats.map fun (m, l, c) => bit m ++ bit l ++ bit c)} thr:{joinWith "," thrOut} text:{joinWith "," ((textRegs fixed valid).map hexName)} json:{joinWith "," ((jsonRegs fixed jvalid).map hexName)} cert:{joinWith "," ((certReport certs cshown).map fun o => match o with | some c => hexName c | none => "0")}"
     | _, _ => "bad-op"
-  | _, _, _, _, _, _, _ => "bad-op"
+  | _, _, _, _, _, _, _, _, _ => "bad-op"
 
 def parseCell (s : String) : Option (Nat × Cell) :=
   match s.splitOn "=" with
@@ -308,12 +343,13 @@ def field (pfx : String) (s : String) : Option String :=
 /-- line-protocol entry point of this model (engine(s): det) -/
 def handle (_engine : String) (args : List String) : String :=
   match args with
-  | ["model", lim, mods, done, thr, fixed, valid, jvalid] =>
+  | ["model", lim, mods, done, thr, fixed, valid, jvalid, certs, cshown] =>
     match field "lim:" lim, field "mods:" mods, field "done:" done, field "thr:" thr,
-          field "fixed:" fixed, field "valid:" valid, field "jvalid:" jvalid with
-    | some lim, some mods, some done, some thr, some fixed, some valid, some jvalid =>
-      handleModel lim mods done thr fixed valid jvalid
-    | _, _, _, _, _, _, _ => "bad-op"
+          field "fixed:" fixed, field "valid:" valid, field "jvalid:" jvalid,
+          field "certs:" certs, field "cshown:" cshown with
+    | some lim, some mods, some done, some thr, some fixed, some valid, some jvalid, some certs, some cshown =>
+      handleModel lim mods done thr fixed valid jvalid certs cshown
+    | _, _, _, _, _, _, _, _, _ => "bad-op"
   | ["cfi", init, rules] =>
     match field "init:" init, field "rules:" rules with
     | some init, some rules => handleCfi init rules
